@@ -26,7 +26,7 @@ def N(x):
 # ------------------------------------------------------------------ (a) the untyped family
 def leaves(level):
     x, y = ['var', 'x'], ['var', 'y']
-    cs = [0.0, 1.0, 2.0, -0.0, 0.5] if level == 0 else [0.0, 1.0, 2.0, -0.0, 0.5, -1.0, 3.0]
+    cs = [0.0, 1.0, 2.0, -0.0, 0.5, -1.0] if level == 0 else [0.0, 1.0, 2.0, -0.0, 0.5, -1.0, 3.0, -2.5]
     return [x, y] + [N(c) for c in cs]
 
 
@@ -81,7 +81,7 @@ def family_a(t, sd):
 
 def inner_keep(e):
     """quick tier: inner depth-1 trees use at most one constant operand kind per position (x,y,0,1,2 kept; -0.0, 0.5 only at depth<=1)"""
-    bad = ("'-0.0'", "'0.5'")
+    bad = ("'-0.0'", "'0.5'")   # -1.0 stays: constant folds seeded with 0 or 1 only show on negative constants
     s = str(e)
     if any(b in s for b in bad):
         return False
